@@ -1,5 +1,5 @@
 """Implementation driver for C14 (clock domains / internal clock / external MIDI clock).
-stdin: {"mult": [...], "timeline": [...], "clock": [...], "midi_in": [...], "midi_tl": [...]}; stdout: the same keys
+stdin: {"mult": [...], "timeline": [...], "clock": [...], "midi_in": [...], "midi_tl": [...], "midi_wired": [...]}; stdout: the same keys
 with one result per case.  Every case is run inside try/except; an unexpected exception is reported by class name.
 Only API-level observables are recorded: values yielded by the multiplier generator, device.tick() calls (and MIDI
 'clock' messages on a fake mido port) per Timeline.tick(), clock_target.tick() counts against a scripted virtual
@@ -252,8 +252,8 @@ class MidiVirtualTime:
 
 _PATCHED = ("time", "monotonic", "perf_counter", "time_ns", "monotonic_ns", "perf_counter_ns")
 
-def timed_callback(dev, vt, message, instant, intra):
-    """dev._callback(message) with the wall clock standing at `instant` (units); returns the exception class name or None"""
+def timed_call(vt, instant, intra, fn):
+    """fn() with the wall clock standing at `instant` (units); returns the exception or None"""
     vt.now, vt.intra = instant, intra
     saved_mod = midi_input_module.time
     saved = {n: getattr(_real_time, n) for n in _PATCHED}
@@ -261,7 +261,7 @@ def timed_callback(dev, vt, message, instant, intra):
     for n in _PATCHED:
         setattr(_real_time, n, getattr(vt, n))
     try:
-        dev._callback(message)
+        fn()
         return None
     except Exception as e:
         return e
@@ -269,6 +269,11 @@ def timed_callback(dev, vt, message, instant, intra):
         for n in _PATCHED:
             setattr(_real_time, n, saved[n])
         midi_input_module.time = saved_mod
+
+
+def timed_callback(dev, vt, message, instant, intra):
+    """dev._callback(message) with the wall clock standing at `instant` (units); returns the exception or None"""
+    return timed_call(vt, instant, intra, lambda: dev._callback(message))
 
 
 def tempo_obs(dev):
@@ -342,6 +347,158 @@ def run_midi_tl(case):
     return {"obs": obs, "code": code, "ticks_per_beat": tl.ticks_per_beat, "exc": exc}
 
 
+# ---- 5. MidiInputDevice wired to a REAL Timeline (clock_target = the timeline, clock_source = the device) ------
+# start / stop / songpos messages travel MidiInputDevice._callback -> Timeline.start/stop/reset -> (devices, and back:)
+# clock_source.run()/stop(); user-level timeline.stop()/start()/reset() between messages.  Timeline.start() spawns a
+# thread that runs Timeline.run() -> clock_source.run(), which sleeps for ever: the thread is started for real, the main
+# thread waits until it has reached its first time.sleep() (where it is parked for good) or has ended, so that every
+# call it makes is recorded before the next event is fed in — a deterministic schedule.
+import threading as _threading
+import isobar.timelines.timeline as timeline_module
+
+
+class WiredTime(MidiVirtualTime):
+    """the virtual wall clock; sleep() called from a thread spawned by the timeline parks that thread for ever"""
+    def __init__(self):
+        super().__init__()
+        self.spawned = {}                      # thread ident -> Event set when the thread is parked
+        self.never = _threading.Event()
+    def sleep(self, seconds):
+        ev = self.spawned.get(_threading.get_ident())
+        if ev is not None:
+            ev.set()
+            self.never.wait()                  # parked: MidiInputDevice.run() never returns
+
+
+class WiredThreading:
+    """stands in for the `threading` module seen by isobar.timelines.timeline"""
+    def __init__(self, vt, problems):
+        self.vt, self.problems = vt, problems
+        outer = self
+        class Thread:
+            def __init__(self, target=None, args=(), kwargs=None, **kw):
+                self.target, self.args, self.kwargs, self.daemon = target, args, kwargs or {}, True
+            def start(self):
+                done = _threading.Event()
+                def body():
+                    outer.vt.spawned[_threading.get_ident()] = done
+                    try:
+                        self.target(*self.args, **self.kwargs)
+                    except BaseException as e:
+                        outer.problems.append("thread raised " + type(e).__name__)
+                    finally:
+                        done.set()
+                t = _threading.Thread(target=body)
+                t.daemon = True
+                t.start()
+                if not done.wait(20):
+                    outer.problems.append("thread neither parked nor ended")
+            def join(self, timeout=None):
+                pass
+        self.Thread = Thread
+    def __getattr__(self, name):
+        return getattr(_threading, name)
+
+
+class WiredPort:
+    """fake mido output port of a MidiOutputDevice(send_clock=True): clock -> tick, a block of note_off -> all_notes_off,
+    stop / start"""
+    name = "verif-fake-out"
+    def __init__(self, log, index):
+        self.log, self.index, self.offs = log, index, 0
+    def send(self, msg):
+        if msg.type == "note_off":
+            self.offs += 1
+            if self.offs == 16 * 128:
+                self.offs = 0
+                self.log.append(10 + self.index)
+            return
+        if self.offs:
+            self.log.append("partial all_notes_off")
+            self.offs = 0
+        if msg.type == "clock":
+            self.log.append(self.index)
+        elif msg.type == "stop":
+            self.log.append(20 + self.index)
+        elif msg.type == "start":
+            self.log.append(30 + self.index)
+        else:
+            self.log.append("port message " + msg.type)
+
+
+class WiredRec(Rec):
+    def all_notes_off(self):
+        self.log.append(10 + self.index)
+    def stop(self):
+        self.log.append(20 + self.index)
+    def start(self):
+        self.log.append(30 + self.index)
+
+
+def run_midi_wired(case):
+    log = []
+    devs = []
+    for i, spec in enumerate(case["devs"]):
+        if spec == "midi":
+            d = MidiOutputDevice(send_clock=True)
+            d.midi = WiredPort(log, i)
+        else:
+            d = WiredRec(spec, i, log)
+        devs.append(d)
+
+    class WiredMidiIn(MidiInputDevice):          # records the calls the timeline makes back on its clock source
+        def stop(self):
+            log.append(40)
+            return super().stop()
+        def run(self):
+            log.append(41)
+            return super().run()
+
+    class CountingTimeline(iso.Timeline):
+        n_ticks = 0
+        def tick(self):
+            self.n_ticks += 1
+            super().tick()
+
+    midi_in = WiredMidiIn()
+    tl = CountingTimeline(output_device=devs[0], clock_source=midi_in)
+    for d in devs[1:]:
+        tl.add_output_device(d)
+    vt = WiredTime()
+    problems = []
+    saved_threading = timeline_module.threading
+    timeline_module.threading = WiredThreading(vt, problems)
+    saved_stdout = sys.stdout
+    sys.stdout = sys.stderr                       # Timeline.run prints when its thread dies
+    obs, code, exc = [], 0, []
+    try:
+        for j, ev in enumerate(case["evs"]):
+            del log[:]
+            kind = ev[0]
+            if kind == "user_stop":
+                fn = tl.stop
+            elif kind == "user_start":
+                fn = tl.start
+            elif kind == "user_reset":
+                fn = tl.reset
+            else:
+                msg = make_msg(ev)
+                fn = lambda: midi_in._callback(msg)
+            e = timed_call(vt, case["times"][j], case.get("intra", 0), fn)
+            obs.append([list(log), round(tl.current_time * 24), tl.n_ticks])
+            if e is not None:
+                code = err_code(e)
+                if not isinstance(code, int):
+                    exc.append([j, code])
+                    code = 0
+                    continue
+                break
+    finally:
+        timeline_module.threading = saved_threading
+        sys.stdout = saved_stdout
+    return {"obs": obs, "code": code, "ticks_per_beat": tl.ticks_per_beat, "exc": exc, "problems": problems}
+
+
 def guarded(f, case):
     try:
         return f(case)
@@ -353,7 +510,7 @@ def main():
     req = json.load(sys.stdin)
     out = {}
     for key, f in (("mult", run_mult), ("timeline", run_timeline), ("clock", run_clock),
-                   ("midi_in", run_midi_in), ("midi_tl", run_midi_tl)):
+                   ("midi_in", run_midi_in), ("midi_tl", run_midi_tl), ("midi_wired", run_midi_wired)):
         if key in req:
             out[key] = [guarded(f, c) for c in req[key]]
     json.dump(out, sys.stdout)
